@@ -270,6 +270,22 @@ func tableCase(r *vlib.RNG, b budget, out *caseOut) {
 			for i := 0; i < 4 && len(kvs) > 0; i++ {
 				retain = append(retain, randomProbe(r, kvs))
 			}
+			// the writer's order check: after a prefix ending at a random entry or at the last entry of a data block,
+			// the same key again or an earlier one
+			if n := len(kvs); n > 0 {
+				e := r.Intn(n)
+				if len(tc.starts) > 1 && r.Bool() {
+					e = tc.starts[1+r.Intn(len(tc.starts)-1)] - 1
+				}
+				bad := kvs[e].K
+				if r.Chance(1, 3) {
+					bad = kvs[r.Intn(e+1)].K
+				}
+				checkOrder(newCase(cfg, shape, kvs[:e+1]), cloneBytes(bad), out)
+				if tc.isStart[e+1] {
+					out.count("writer_out_of_order_at_block_end", 1)
+				}
+			}
 			// distribution
 			nb := tc.nBlocks()
 			out.count(blocksBucket(nb), 1)
@@ -398,7 +414,13 @@ func main() {
 	r := vlib.NewRNG(seed)
 	rTables, rBlocks, rDamage, rK := r.Fork(), r.Fork(), r.Fork(), r.Fork()
 
+	if a.Extra == "golden-gen" {
+		w, _ := BuildTable(goldenCfg, goldenKVs())
+		fmt.Printf("%x\n", w)
+		return
+	}
 	t0 := time.Now()
+	runJobs(res, 1, func(i int) func(out *caseOut) { return checkGolden })
 	runJobs(res, b.tables, func(i int) func(out *caseOut) {
 		cr := rTables.Fork()
 		return func(out *caseOut) { tableCase(cr, b, out) }
